@@ -75,11 +75,11 @@ Ltac logs :=
 (* everything but balances, supply, frozen tokens, allowances and the logs *)
 Definition same_core (s s' : state) : Prop :=
   now s' = now s /\ paused s' = paused s /\ aflag s' = aflag s /\
-  cmp_set s' = cmp_set s /\ idv_set s' = idv_set s.
+  cmp_set s' = cmp_set s /\ idv_set s' = idv_set s /\ cmp_at s' = cmp_at s /\ idv_at s' = idv_at s.
 Lemma same_core_refl s : same_core s s.
 Proof. repeat split. Qed.
 Lemma same_core_trans s1 s2 s3 : same_core s1 s2 -> same_core s2 s3 -> same_core s1 s3.
-Proof. unfold same_core. intros (A1 & A2 & A3 & A4 & A5) (B1 & B2 & B3 & B4 & B5). repeat split; congruence. Qed.
+Proof. unfold same_core. intros (A1 & A2 & A3 & A4 & A5 & A6 & A7) (B1 & B2 & B3 & B4 & B5 & B6 & B7). repeat split; congruence. Qed.
 
 Definition delta (o : option addr) (x : addr) (amt : Z) : Z :=
   match o with Some a => if N.eqb x a then amt else 0 | None => 0 end.
@@ -302,14 +302,15 @@ Proof.
       repeat split; intros z.
       * rewrite Y2, X2, B. cbn [delta]. destruct (N.eqb z old); lia.
       * rewrite Y3, X1, !F, N.eqb_refl. destruct (N.eqb z old) eqn:Ez; b2z; subst; lia.
-      * rewrite Y1, H1, H10. destruct (N.eqb z old) eqn:Ez; b2z; subst; [apply orb_diag|reflexivity].
+      * rewrite Y1. repeat match goal with H : aflag ?q = _ |- context [aflag ?q] => rewrite H end.
+        destruct (N.eqb z old) eqn:Ez; b2z; subst; [apply orb_diag|reflexivity].
     + intros _ Hne. repeat split; intros z.
       * rewrite Y2, X2, B. cbn [delta].
         destruct (N.eqb z old) eqn:Ez, (N.eqb z new) eqn:Ez'; b2z; subst; try contradiction; lia.
       * rewrite Y3, X1, !F.
         destruct (N.eqb z old) eqn:Ez, (N.eqb z new) eqn:Ez'; b2z; subst; try contradiction; try lia.
         destruct (N.eqb new old) eqn:Ez''; b2z; subst; try contradiction; lia.
-      * rewrite Y1, H1, H10. reflexivity.
+      * rewrite Y1. repeat match goal with H : aflag ?q = _ |- context [aflag ?q] => rewrite H end. reflexivity.
 Qed.
 
 (* ------------------------------------------------------------------ *)
@@ -411,11 +412,11 @@ Theorem gates_thm : forall (hc : hostcfg) (s : state) (c : call) (s' : state) (r
   | Transfer from to amt | TransferFrom _ from to amt =>
       paused s = false /\ aflag s from = false /\ aflag s to = false /\
       0 <= amt <= bal s from - frozen s from /\
-      idv_ok (c_orc c) from = true /\ idv_ok (c_orc c) to = true /\ o_can_transfer (c_orc c) = true /\
+      idv_ok (eff_orc s c) from = true /\ idv_ok (eff_orc s c) to = true /\ o_can_transfer (eff_orc s c) = true /\
       In (QVerify from) (idv_log s') /\ In (QVerify to) (idv_log s') /\
       In (QCanTransfer from to amt) (cmp_log s')
   | Mint to amt _ =>
-      0 <= amt /\ idv_ok (c_orc c) to = true /\ o_can_create (c_orc c) = true /\
+      0 <= amt /\ idv_ok (eff_orc s c) to = true /\ o_can_create (eff_orc s c) = true /\
       In (QVerify to) (idv_log s') /\ In (QCanCreate to amt) (cmp_log s')
   | _ => True
   end.
@@ -477,7 +478,7 @@ Lemma recover_step : forall (hc : hostcfg) (s : state) (c : call) (old new opr :
   Inv s ->
   c_op c = RecoverBalance old new opr ->
   step hc s c = (s', Ok r) ->
-  recovery_target (c_orc c) old = Some new /\ idv_ok (c_orc c) new = true /\
+  recovery_target (eff_orc s c) old = Some new /\ idv_ok (eff_orc s c) new = true /\
   r = Some (negb (bal s old =? 0)) /\
   paused s' = paused s /\
   (bal s old <> 0 -> old <> new ->
@@ -508,7 +509,7 @@ Theorem recover_thm : forall (hc : hostcfg) (cs : list call) (c : call) (old new
   let s := run hc init cs in
   c_op c = RecoverBalance old new opr ->
   step hc s c = (s', Ok r) ->
-  recovery_target (c_orc c) old = Some new /\ idv_ok (c_orc c) new = true /\
+  recovery_target (eff_orc s c) old = Some new /\ idv_ok (eff_orc s c) new = true /\
   r = Some (negb (bal s old =? 0)) /\
   paused s' = paused s /\
   (bal s old <> 0 -> old <> new ->
@@ -708,4 +709,274 @@ Proof.
   - use unfreeze_spec. fin.
   - unfold pause in *. binds E0. reflexivity.
   - unfold unpause in *. binds E0. reflexivity.
+Qed.
+
+(* ------------------------------------------------------------------ *)
+(* frames: allowances, supply, authorisation, pause flag, links        *)
+
+Lemma upd2_other {V} (f : addr -> addr -> V) a b v x y :
+  (x, y) <> (a, b) -> upd2 f a b v x y = f x y.
+Proof.
+  unfold upd2. intros H. destruct (N.eqb x a) eqn:E1, (N.eqb y b) eqn:E2; cbn; auto.
+  apply N.eqb_eq in E1, E2. subst. contradiction.
+Qed.
+
+Lemma set_allowance_other hc o sp amt live s s' o' sp' :
+  set_allowance hc o sp amt live s = Ok s' -> (o', sp') <> (o, sp) ->
+  allowance s' o' sp' = allowance s o' sp'.
+Proof.
+  unfold set_allowance. intros H Hn. binds H.
+  destruct (0 <? amt); binds H; unfold allowance, allowance_data; cbn [allow now set_allow];
+    rewrite (upd2_other _ _ _ _ _ _ Hn); reflexivity.
+Qed.
+
+Lemma spend_allowance_other hc o sp amt s s' o' sp' :
+  spend_allowance hc o sp amt s = Ok s' -> (o', sp') <> (o, sp) ->
+  allowance s' o' sp' = allowance s o' sp'.
+Proof.
+  unfold spend_allowance. intros H Hn. binds H.
+  destruct (0 <? amt); binds H; [eapply set_allowance_other; eauto | reflexivity].
+Qed.
+
+Lemma transfer_from_allowance_other hc au o sp from to amt s s' o' sp' :
+  transfer_from hc au o sp from to amt s = Ok s' -> (o', sp') <> (from, sp) ->
+  allowance s' o' sp' = allowance s o' sp'.
+Proof.
+  unfold transfer_from, compliance_addr. intros H Hn. binds H.
+  use validate_transfer_spec. decomp. subst.
+  match goal with H : spend_allowance _ _ _ _ _ = Ok _ |- _ =>
+    pose proof (spend_allowance_other _ _ _ _ _ _ _ _ H Hn) as SA end.
+  use update_spec. unfold same_core in *. decomp.
+  etransitivity; [|exact SA]. apply allowance_same; cbn; congruence.
+Qed.
+
+(* time only makes allowances expire *)
+Lemma allowance_advance s n o sp : 0 <= n ->
+  allowance (set_now s (now s + n)) o sp = allowance s o sp \/ allowance (set_now s (now s + n)) o sp = 0.
+Proof.
+  intros Hn. unfold allowance, allowance_data. cbn [allow now set_now].
+  unfold tget, tlive_at. destruct (allow s o sp) as [en|]; [|right; cbn; destruct (0 <? now s + n); reflexivity].
+  destruct (tlive en <? now s + n) eqn:A.
+  - right. cbn. destruct (0 <? now s + n); reflexivity.
+  - destruct (tlive en <? now s) eqn:B; b2z; [lia|].
+    destruct (snd (tval en) <? now s + n) eqn:C; [right; reflexivity|].
+    destruct (snd (tval en) <? now s) eqn:D; b2z; [lia|]. left. reflexivity.
+Qed.
+
+Definition pair_eqb (p q : addr * addr) : bool := N.eqb (fst p) (fst q) && N.eqb (snd p) (snd q).
+Lemma pair_eqb_false p q : pair_eqb p q = false -> p <> q.
+Proof.
+  unfold pair_eqb. intros H E. subst q. rewrite !N.eqb_refl in H. discriminate.
+Qed.
+Lemma pair_eqb_true p q : pair_eqb p q = true -> p = q.
+Proof.
+  unfold pair_eqb. destruct p, q. cbn. intros H. apply andb_prop in H. destruct H as [A B].
+  apply N.eqb_eq in A, B. congruence.
+Qed.
+
+Lemma update_supply from to amt s s' :
+  update from to amt s = Ok s' ->
+  supply s' = supply s + (match from with None => amt | Some _ => 0 end) - (match to with None => amt | Some _ => 0 end).
+Proof.
+  unfold update. intros H. destruct from as [a|], to as [b|]; binds H; cbn; lia.
+Qed.
+
+Lemma recover_allow o old new s b s' :
+  recover_balance o old new s = Ok (b, s') -> allow s' = allow s /\ now s' = now s /\ supply s' = supply s.
+Proof.
+  unfold recover_balance, verify_identity, identity_verifier_addr. intros H. binds H. subst.
+  cbn [bal frozen aflag log_idv] in H.
+  destruct (bal s old =? 0).
+  - binds H. subst. cbn. auto.
+  - binds H. subst.
+    match goal with H : forced_transfer _ _ _ _ = Ok _ |- _ =>
+      unfold forced_transfer, compliance_addr in H; binds H end.
+    use unfreeze_needed_spec.
+    match goal with H : update _ _ _ _ = Ok _ |- _ => pose proof (update_supply _ _ _ _ _ H) as US end.
+    use update_spec.
+    assert (Q4 : allow x4 = allow x7 /\ now x4 = now x7 /\ supply x4 = supply x7).
+    { destruct (0 <? frozen s old); [unfold freeze_partial_tokens in E4|]; binds E4; cbn; auto. }
+    assert (Q5 : allow s' = allow x4 /\ now s' = now x4 /\ supply s' = supply x4).
+    { destruct (aflag s old); [unfold set_address_frozen in E5|]; binds E5; cbn; auto. }
+    unfold same_core in *. decomp. cbn in *. repeat split; try congruence. lia.
+Qed.
+
+Ltac relink :=
+  repeat match goal with
+  | H : cmp_set ?a = cmp_set _ |- context [cmp_set ?a] => rewrite H
+  | H : idv_set ?a = idv_set _ |- context [idv_set ?a] => rewrite H
+  | H : cmp_at ?a = cmp_at _ |- context [cmp_at ?a] => rewrite H
+  | H : idv_at ?a = idv_at _ |- context [idv_at ?a] => rewrite H
+  end.
+
+Lemma recover_links o old new s b s' :
+  recover_balance o old new s = Ok (b, s') -> link_cmp s' = link_cmp s /\ link_idv s' = link_idv s.
+Proof.
+  unfold recover_balance, verify_identity, identity_verifier_addr, link_cmp, link_idv. intros H. binds H. subst.
+  cbn [bal frozen aflag log_idv] in H.
+  destruct (bal s old =? 0).
+  - binds H. subst. cbn. auto.
+  - binds H. subst.
+    match goal with H : forced_transfer _ _ _ _ = Ok _ |- _ =>
+      unfold forced_transfer, compliance_addr in H; binds H end.
+    use unfreeze_needed_spec. use update_spec.
+    assert (Q4 : cmp_set x4 = cmp_set x7 /\ idv_set x4 = idv_set x7 /\ cmp_at x4 = cmp_at x7 /\ idv_at x4 = idv_at x7).
+    { destruct (0 <? frozen s old); [unfold freeze_partial_tokens in E4|]; binds E4; cbn; auto. }
+    assert (Q5 : cmp_set s' = cmp_set x4 /\ idv_set s' = idv_set x4 /\ cmp_at s' = cmp_at x4 /\ idv_at s' = idv_at x4).
+    { destruct (aflag s old); [unfold set_address_frozen in E5|]; binds E5; cbn; auto. }
+    unfold same_core in *. decomp. cbn in *. split; relink; reflexivity.
+Qed.
+
+(* the allowance table after a successful call *)
+Theorem allowance_frame : forall (hc : hostcfg) (s : state) (c : call) (s' : state) (r : ret) (o sp : addr),
+  step hc s c = (s', Ok r) ->
+  match c_op c with
+  | Approve ow sp' amt _ =>
+      allowance s' o sp = if pair_eqb (o, sp) (ow, sp') then amt else allowance s o sp
+  | TransferFrom spd from _ amt =>
+      allowance s' o sp = if pair_eqb (o, sp) (from, spd) then allowance s o sp - amt else allowance s o sp
+  | Advance _ => allowance s' o sp = allowance s o sp \/ allowance s' o sp = 0
+  | _ => allowance s' o sp = allowance s o sp
+  end.
+Proof.
+  intros hc s c s' r o sp H. apply step_ok in H. unfold exec_with, unit_ret in H. binds H.
+  assert (AS : forall t : state, allow t = allow (clear_logs s) -> now t = now (clear_logs s) ->
+                                 allowance t o sp = allowance s o sp).
+  { intros t A B. apply allowance_same; [exact A|exact B]. }
+  destruct (c_op c); binds H; subst.
+  - use transfer_spec. unfold same_core in *. decomp. apply AS; assumption.
+  - destruct (pair_eqb (o, sp) (from, spender)) eqn:PE.
+    + apply pair_eqb_true in PE. injection PE as -> ->.
+      match goal with H : transfer_from _ _ _ _ _ _ _ _ = Ok _ |- _ =>
+        exact (transfer_from_allowance _ _ _ _ _ _ _ (clear_logs s) _ H) end.
+    + apply pair_eqb_false in PE.
+      match goal with H : transfer_from _ _ _ _ _ _ _ _ = Ok _ |- _ =>
+        exact (transfer_from_allowance_other _ _ _ _ _ _ _ (clear_logs s) _ _ _ H PE) end.
+  - destruct (pair_eqb (o, sp) (owner, spender)) eqn:PE.
+    + apply pair_eqb_true in PE. injection PE as -> ->.
+      match goal with H : set_allowance _ _ _ _ _ _ = Ok _ |- _ => apply set_allowance_spec in H; destruct H as [_ H]; exact H end.
+    + apply pair_eqb_false in PE.
+      match goal with H : set_allowance _ _ _ _ _ _ = Ok _ |- _ =>
+        exact (set_allowance_other _ _ _ _ _ (clear_logs s) _ _ _ H PE) end.
+  - use mint_spec. unfold same_core in *. decomp. apply AS; assumption.
+  - use burn_spec. unfold same_core in *. decomp. apply AS; assumption.
+  - use forced_transfer_spec. unfold same_core in *. decomp. apply AS; assumption.
+  - destruct x1 as [b s2]. cbv beta iota in H. binds H. subst.
+    match goal with H : recover_balance _ _ _ _ = Ok _ |- _ => apply recover_allow in H; destruct H as (A1 & A2 & _) end.
+    apply AS; assumption.
+  - unfold set_address_frozen in *. binds E0. reflexivity.
+  - use freeze_spec. unfold same_core in *. decomp. apply AS; assumption.
+  - use unfreeze_spec. unfold same_core in *. decomp. apply AS; assumption.
+  - unfold pause in *. binds E0. reflexivity.
+  - unfold unpause in *. binds E0. reflexivity.
+  - reflexivity.
+  - reflexivity.
+  - unfold wf_op in E. b2z. apply (allowance_advance (clear_logs s) n o sp). assumption.
+Qed.
+
+Ltac binds_all := repeat match goal with
+  | H : bind _ _ = Ok _ |- _ => binds H
+  | H : Ok _ = Ok _ |- _ => binds H
+  end.
+
+(* the total supply after a successful call *)
+Theorem supply_frame : forall (hc : hostcfg) (s : state) (c : call) (s' : state) (r : ret),
+  step hc s c = (s', Ok r) ->
+  supply s' = supply s + (match c_op c with Mint _ amt _ => amt | Burn _ amt _ => - amt | _ => 0 end).
+Proof.
+  intros hc s c s' r H. apply step_ok in H. unfold exec_with, unit_ret in H. binds H.
+  destruct (c_op c); binds H; subst.
+  - unfold transfer, compliance_addr in *. binds_all. use validate_transfer_spec. decomp. subst.
+    match goal with H : update _ _ _ _ = Ok _ |- _ => apply update_supply in H end. cbn in *. lia.
+  - unfold transfer_from, compliance_addr in *. binds_all. use validate_transfer_spec. decomp. subst.
+    use spend_allowance_frame. decomp.
+    match goal with H : update _ _ _ _ = Ok _ |- _ => apply update_supply in H end. cbn in *. lia.
+  - use set_allowance_frame. decomp. cbn in *. lia.
+  - unfold mint, verify_identity, identity_verifier_addr, compliance_addr in *. binds_all.
+    match goal with H : update _ _ _ _ = Ok _ |- _ => apply update_supply in H end. cbn in *. lia.
+  - unfold burn, compliance_addr in *. binds_all. use unfreeze_needed_spec. decomp.
+    match goal with H : update _ _ _ _ = Ok _ |- _ => apply update_supply in H end. cbn in *. lia.
+  - unfold forced_transfer, compliance_addr in *. binds_all. use unfreeze_needed_spec. decomp.
+    match goal with H : update _ _ _ _ = Ok _ |- _ => apply update_supply in H end. cbn in *. lia.
+  - destruct x1 as [b s2]. cbv beta iota in H. binds H. subst.
+    match goal with H : recover_balance _ _ _ _ = Ok _ |- _ => apply recover_allow in H; destruct H as (_ & _ & A3) end.
+    cbn in *. lia.
+  - unfold set_address_frozen in *. binds_all. cbn. lia.
+  - unfold freeze_partial_tokens in *. binds_all. cbn. lia.
+  - unfold unfreeze_partial_tokens in *. binds_all. cbn. lia.
+  - unfold pause in *. binds_all. cbn. lia.
+  - unfold unpause in *. binds_all. cbn. lia.
+  - cbn. lia.
+  - cbn. lia.
+  - cbn. lia.
+Qed.
+
+(* C04_holder_authorisation: who must have authorised a successful call *)
+Theorem holder_authorisation : forall (hc : hostcfg) (s : state) (c : call) (s' : state) (r : ret),
+  step hc s c = (s', Ok r) ->
+  match c_op c with
+  | Transfer from _ _ => has_auth (c_auths c) from = true
+  | TransferFrom sp from _ amt => has_auth (c_auths c) sp = true /\ 0 <= amt <= allowance s from sp
+  | Approve owner _ _ _ => has_auth (c_auths c) owner = true
+  | Mint _ _ opr | Burn _ _ opr | ForcedTransfer _ _ _ opr | RecoverBalance _ _ opr
+  | SetAddressFrozen _ _ opr | Freeze _ _ opr | Unfreeze _ _ opr | Pause opr | Unpause opr
+  | SetCompliance _ opr | SetIdentityVerifier _ opr => has_auth (c_auths c) opr = true
+  | Advance _ => True
+  end.
+Proof.
+  intros hc s c s' r H. apply step_ok in H. unfold exec_with, unit_ret in H. binds H.
+  destruct (c_op c); binds H; subst; auto.
+  - use transfer_spec. decomp. assumption.
+  - use transfer_from_spec. decomp. repeat split; auto.
+Qed.
+
+
+(* C04_pause_and_links: the pause flag and the links to the collaborators change only through
+   pause / unpause / set_compliance / set_identity_verifier, and exactly as these say *)
+Theorem pause_and_links : forall (hc : hostcfg) (s : state) (c : call) (s' : state) (r : ret),
+  step hc s c = (s', Ok r) ->
+  match c_op c with
+  | Pause _ => paused s = false /\ paused s' = true /\ link_cmp s' = link_cmp s /\ link_idv s' = link_idv s
+  | Unpause _ => paused s = true /\ paused s' = false /\ link_cmp s' = link_cmp s /\ link_idv s' = link_idv s
+  | SetCompliance w _ => paused s' = paused s /\ link_cmp s' = Some w /\ link_idv s' = link_idv s
+  | SetIdentityVerifier w _ => paused s' = paused s /\ link_cmp s' = link_cmp s /\ link_idv s' = Some w
+  | RecoverBalance _ _ _ => True          (* C04_recover: paused unchanged; links: exec_links below *)
+  | _ => paused s' = paused s /\ link_cmp s' = link_cmp s /\ link_idv s' = link_idv s
+  end.
+Proof.
+  intros hc s c s' r H. apply step_ok in H. unfold exec_with, unit_ret in H. binds H.
+  unfold link_cmp, link_idv.
+  destruct (c_op c); binds H; subst; auto.
+  - use transfer_spec. unfold same_core in *. decomp. cbn in *. repeat split; try congruence; relink; reflexivity.
+  - use transfer_from_spec. unfold same_core in *. decomp. cbn in *. repeat split; try congruence; relink; reflexivity.
+  - use set_allowance_frame. unfold same_core in *. decomp. cbn in *. repeat split; try congruence; relink; reflexivity.
+  - use mint_spec. unfold same_core in *. decomp. cbn in *. repeat split; try congruence; relink; reflexivity.
+  - use burn_spec. unfold same_core in *. decomp. cbn in *. repeat split; try congruence; relink; reflexivity.
+  - use forced_transfer_spec. unfold same_core in *. decomp. cbn in *. repeat split; try congruence; relink; reflexivity.
+  - unfold set_address_frozen in *. binds_all. cbn. auto.
+  - use freeze_spec. unfold same_core in *. decomp. cbn in *. repeat split; try congruence; relink; reflexivity.
+  - use unfreeze_spec. unfold same_core in *. decomp. cbn in *. repeat split; try congruence; relink; reflexivity.
+  - unfold pause in *. binds_all. b2z. cbn in *. auto.
+  - unfold unpause in *. binds_all. cbn in *. auto.
+Qed.
+
+(* a failing call changes nothing at all (host rollback, by construction of [step]) *)
+Theorem failed_call_no_effect : forall (hc : hostcfg) (s : state) (c : call) (s' : state),
+  step hc s c = (s', Fail) -> s' = clear_logs s.
+Proof. exact step_fail. Qed.
+
+(* the links after ANY call (successful or not) *)
+Theorem links_step : forall (hc : hostcfg) (s : state) (c : call) (s' : state) (o : res ret),
+  step hc s c = (s', o) ->
+  link_cmp s' = (match c_op c with SetCompliance w _ => if is_ok o then Some w else link_cmp s | _ => link_cmp s end) /\
+  link_idv s' = (match c_op c with SetIdentityVerifier w _ => if is_ok o then Some w else link_idv s | _ => link_idv s end).
+Proof.
+  intros hc s c s' o H. destruct o as [r|].
+  - pose proof (pause_and_links hc s c s' r H) as P. cbn [is_ok].
+    destruct (c_op c) eqn:Hop; try (destruct P as (_ & A & B); split; assumption);
+      try (destruct P as (_ & _ & A & B); split; assumption).
+    apply step_ok in H. unfold exec_with, unit_ret in H. rewrite Hop in H. binds H.
+    destruct x1 as [b s2]. cbv beta iota in H. binds H. subst.
+    match goal with H0 : recover_balance _ _ _ _ = Ok _ |- _ => apply recover_links in H0; exact H0 end.
+  - apply step_fail in H. subst. cbn [is_ok]. destruct (c_op c); split; reflexivity.
 Qed.
